@@ -274,20 +274,44 @@ def logic_of(text):
     return m.group(1) if m else "none"
 
 
+def gdb_top_frame(binary, text, mode):
+    """function of the innermost opensmt frame at the fatal signal (None when gdb is not usable)"""
+    tmpd = os.path.join(vlib.BUILD, "tmp")
+    path = os.path.join(tmpd, "c18_gdb_%d.smt2" % os.getpid())
+    with open(path, "wb") as f:
+        f.write(B(text))
+    try:
+        runcmd = "run %s" % path if mode == "F" else "run -p < %s" % path
+        rc, out = vlib.sh(["gdb", "-batch", "-ex", runcmd, "-ex", "bt 25", binary], timeout=120)
+        for m in re.finditer(r"^#\d+\s+(?:0x[0-9a-f]+ in )?([^\n]*?)\s*\(", out, re.M):
+            fn = m.group(1)
+            if "opensmt::" in fn:
+                fn = re.sub(r"<[^<>]*>", "", fn)
+                fn = fn.replace("opensmt::", "")
+                return fn.split("(")[0].strip()
+        return None
+    except Exception:
+        return None
+    finally:
+        try:
+            os.remove(path)
+        except OSError:
+            pass
+
+
 def crash_signature(binary, text, mode, rc, err, thrown, timeout):
-    """stable name of a crash: exception class or signal, the command kind that triggers it, the logic"""
+    """stable name of a crash: exception class + triggering command kind + logic, or signal + crashing function"""
     def once(t):
         r = (run_file if mode == "F" else run_pipe)(binary, t, timeout)
         if r[0] == "timeout":
             return False
         _, _, th = classify(r[1], r[2], r[0])
         return (r[0] == rc) and (th == thrown)
-
-    def still(t):          # twice: crashes that depend on uninitialised memory must not steer the shrinking
-        return once(t) and once(t)
-    small = shrink_text(text, still)
+    small = shrink_text(text, once, budget=60)
+    if not (once(small) and once(small)):      # flaky (uninitialised memory): keep the original input as the replay
+        small = text
     if "%" in small:
-        if not still(small.replace("%", "P")):
+        if not once(small.replace("%", "P")) and not once(small.replace("%", "P")):
             return "crash:format-string", small
     kws = last_command(small, "")
     trig = next((k for k in reversed(kws) if k not in ("exit",)), "none")
@@ -295,7 +319,8 @@ def crash_signature(binary, text, mode, rc, err, thrown, timeout):
     if thrown:
         return "abort:%s:%s:%s" % (thrown, trig, lg), small
     sig = SIGNAMES.get(-rc, str(rc)) if isinstance(rc, int) and rc < 0 else "rc%s" % rc
-    return "signal:%s:%s:%s" % (sig, trig, lg), small
+    fn = gdb_top_frame(binary, small, mode)
+    return "signal:%s:%s" % (sig, fn if fn else "%s:%s" % (trig, lg)), small
 
 
 def shrink_text(text, still, budget=150):
@@ -449,7 +474,7 @@ def run(ctx):
     # corpus first
     for p in sorted(glob.glob(os.path.join(vlib.VERIF, "corpus", "C18", "*.smt2"))):
         inputs.append(("corpus", open(p, "rb").read().decode("latin-1")))
-    n_t, n_g, n_r = (110, 30, 80) if ctx.quick else (3000, 600, 3000)
+    n_t, n_g, n_r = (90, 25, 65) if ctx.quick else (3000, 600, 3000)
     for _ in range(n_t):
         cmds = templates(rng)
         t = "\n".join(cmds) + "\n"
@@ -479,6 +504,7 @@ def run(ctx):
         asan = build_asan(ctx)
         ctx.extra["asan_build"] = bool(asan)
     seen_sigs = {}
+    coarse = set()
     prompt_limit = 8.0
     t_limit = 10.0 if ctx.quick else 20.0
     model_lines, model_expect = [], []
@@ -503,7 +529,12 @@ def run(ctx):
                      sample=dict(kind=kind, mode=mode, script=text[:160], rc=rc, out=out[:120], err=err[:80]) if nontriv else None)
             # 1. abnormal endings
             if rc not in (0, 1):
-                key = (rc, thrown, mode)
+                kws0 = last_command(text, "")
+                key = (rc, thrown, logic_of(text), kws0[-1] if kws0 else "")
+                if key in coarse:
+                    ctx.count("abnormal-ending-same-class-as-earlier")
+                    continue
+                coarse.add(key)
                 sig, small = crash_signature(binary, text, mode, rc, err, thrown, t_limit)
                 if sig not in seen_sigs:
                     seen_sigs[sig] = small
